@@ -231,7 +231,10 @@ OnWild ==
 OnTlscCfg ==
   /\ Is("tlsc_cfg") /\ exp = <<>>
   /\ sc' = [NoSc EXCEPT !.variant = "tls_client", !.mode = Ev.mode, !.min = IF Ev.min_tls = "1.3" THEN 13 ELSE 12,
-                        !.trust = Ev.trust, !.policy = Ev.name]
+                        !.trust = Ev.trust,
+                        \* through the C ABI the expected name is dns_name, and verification of the name is
+                        \* switched off only by allow_server_name_wildcard together with the name "*"
+                        !.policy = IF "dns" \in DOMAIN Ev THEN (IF Ev.wildcard /\ Ev.dns = "*" THEN "" ELSE Ev.dns) ELSE Ev.name]
   /\ UNCHANGED <<up, tracker, nextId, conn, pend, evp, db, exp, cur>> /\ Step
 OnCState == Is("cstate") /\ UNCHANGED <<sc, up, tracker, nextId, conn, pend, evp, db, exp, cur>> /\ Step
 OnTlsc ==
